@@ -7,7 +7,7 @@ From Coq Require Import List NArith ZArith Bool Lia.
 From GoPdf.Base Require Import Bytes Res.
 From GoPdf.Gen Require Import Gen_Consts Gen_Limits Gen_C05.
 From GoPdf.C05 Require Import Refill RefillProofs PrevChain PrevChainProofs Resolve ResolveProofs
-     Walk WalkProofs XRefCount XRefCountProofs ObjStmGet ObjStmGetProofs.
+     Walk WalkProofs XRefCount XRefCountProofs ObjStmGet ObjStmGetProofs Nest NestProofs ObjStmIndex ObjStmIndexProofs DecodePath DecodePathProofs.
 Import ListNotations.
 Close Scope Z_scope.
 Close Scope N_scope.
@@ -230,23 +230,43 @@ Proof. vm_compute. reflexivity. Qed.
 (* ---- (6) object streams: no re-entry ---------------------------------- *)
 
 (* for ANY cross-reference table (any object claimed to be compressed in any
-   stream, itself included) and any indirect dictionary entries of the object
-   streams: because the container and its /Filter, /DecodeParms, ... are
-   fetched with canObjStm = false, calls of Reader.get nest at most two deep *)
+   stream, itself included), any indirect dictionary entries of the object
+   streams and any member values (stream-shaped ones included): because the
+   container and its /Filter, /DecodeParms, ... are fetched with
+   canObjStm = false and a stream-shaped member is refused before its /Length
+   is looked at, calls of Reader.get nest at most two deep *)
 Theorem objstm_get_depth_bounded :
-  forall (xref : N -> entry) (member : N -> sobj) (fuel : nat) (ref : N) (can : bool),
+  forall (xref : N -> entry) (member : N -> mval) (fuel : nat) (ref : N) (can : bool),
     2 <= fuel ->
-    get xref member false fuel ref can <> Err OutOfFuel.
+    get xref member false true fuel ref can <> Err OutOfFuel.
 Proof. exact get_depth_bounded_lemma. Qed.
 Print Assumptions objstm_get_depth_bounded.
 
-(* the variant that fetches the dictionary entries of an object stream with
-   canObjStm = true re-enters without bound: object 10 compressed in stream 3
-   whose /Filter is the indirect object 10 *)
+(* a compressed object that is stored stream-shaped (`<< /Length l 0 R >> stream`)
+   never yields a value: Get returns a value only for direct or free entries *)
+Theorem objstm_stream_shaped_member_refused :
+  forall (xref : N -> entry) (member : N -> mval) (fuel : nat) (ref : N) (can : bool) (l : N) (o : sobj),
+    member ref = MStreamShaped l ->
+    get xref member false true fuel ref can = Ok o ->
+    exists d, xref ref = EDirect d \/ (xref ref = EFree /\ o = SVal).
+Proof. exact stream_shaped_member_lemma. Qed.
+Print Assumptions objstm_stream_shaped_member_refused.
+
+(* variant (seeded change C05-1): dictionary entries of an object stream fetched
+   with canObjStm = true re-enter without bound: object 10 compressed in
+   stream 3 whose /Filter is the indirect object 10 *)
 Theorem objstm_get_reentry_refuted :
-  forall fuel, get bad_xref (fun _ => SVal) true fuel 10%N true = Err OutOfFuel.
+  forall fuel, get bad_xref (fun _ => MObj SVal) true true fuel 10%N true = Err OutOfFuel.
 Proof. exact get_reentry_refuted_lemma. Qed.
 Print Assumptions objstm_get_reentry_refuted.
+
+(* variant (the code before F40): the /Length of a stream-shaped member is
+   resolved before the member is refused: object 10 compressed in stream 3 and
+   stored there as `<< /Length 10 0 R >> stream` *)
+Theorem objstm_get_f40_refuted :
+  forall fuel, get f40_xref (fun _ => MStreamShaped 10%N) false false fuel 10%N true = Err OutOfFuel.
+Proof. exact get_f40_refuted_lemma. Qed.
+Print Assumptions objstm_get_f40_refuted.
 
 Example objstm_same_stream_refused :
   get_in [(10, EInStm 3); (3, EDirect (SStm 3 [10]))]%N [] 10%N = Err Malformed.
@@ -254,5 +274,115 @@ Proof. vm_compute. reflexivity. Qed.
 
 Example objstm_ordinary_filter_ok :
   get_in [(10, EInStm 3); (3, EDirect (SStm 3 [30])); (30, EDirect (SRef 31)); (31, EDirect SVal)]%N
-         [(10, SRef 7)]%N 10%N = Ok (SRef 7%N).
+         [(10, MObj (SRef 7))]%N 10%N = Ok (SRef 7%N).
+Proof. vm_compute. reflexivity. Qed.
+
+Example objstm_stream_shaped_self :
+  get_in [(10, EInStm 3); (3, EDirect (SStm 3 []))]%N [(10, MStreamShaped 10)]%N 10%N = Err Malformed.
+Proof. vm_compute. reflexivity. Qed.
+
+(* ---- (7) nesting depth of the object scanner --------------------------- *)
+
+(* for EVERY token sequence: ReadObject either fails with Malformed or returns,
+   the containers open at any moment (the value of s.nestDepth, hence the
+   depth of the Go recursion ReadObject -> ReadArray/ReadDict -> ReadObject)
+   never exceed maxScannerNestDepth; one step per token, so fuel |toks|+1
+   suffices (never OutOfFuel, never Panic) *)
+Theorem nest_bounded :
+  forall (toks : list tok),
+    match read_object toks with
+    | Ok (rest, h) => h <= maxd
+    | Err c => c = Malformed
+    end.
+Proof. exact nest_bounded_lemma. Qed.
+Print Assumptions nest_bounded.
+
+Theorem nest_bounded_from_any_state :
+  forall (fuel : nat) (st : list frame) (toks : list tok),
+    length toks < fuel -> length st <= maxd ->
+    match run fuel st toks 0 with
+    | Ok (rest, h) => h <= maxd
+    | Err c => c = Malformed
+    end.
+Proof. exact nest_bounded_general_lemma. Qed.
+Print Assumptions nest_bounded_from_any_state.
+
+Example nest_small : read_object [TDO; TN; TAO; TA; TDO; TDC; TAC; TDC; TA] = Ok ([TA], 3).
+Proof. vm_compute. reflexivity. Qed.
+
+Example nest_at_limit :
+  read_object (repeat TAO 256 ++ repeat TAC 256) = Ok ([], 256) /\
+  read_object (repeat TAO 257 ++ repeat TAC 257) = Err Malformed.
+Proof. split; vm_compute; reflexivity. Qed.
+
+(* ---- (8) the index of an object stream -------------------------------- *)
+
+(* for ANY /N, /First and ANY offset table (short, damaged, absurd numbers):
+   getObjStm never panics; it fails only with Malformed or the scanner's own
+   error; on success it has allocated exactly /N <= 10000 entries, made 2*/N
+   ReadInteger calls - no more than there are integers in the data, so the
+   work is bounded by the decoded length as well - and every entry lies at or
+   behind the end of the table *)
+Theorem objstm_index_total :
+  forall (n_o first_o : dval) (ints : list (Z * Z)) (tail_err : cls),
+    nonneg_pos ints -> int64_first first_o ->
+    match get_objstm n_o first_o ints tail_err with
+    | Ok ix =>
+      (exists n, n_o = DInt n /\ (0 <= n <= max_n)%Z /\ length (entries ix) = Z.to_nat n /\
+                 reads ix = 2 * Z.to_nat n) /\
+      reads ix <= length ints /\
+      Forall (fun e => (0 <= fst e <= max_uint32)%Z /\ (ipos ix <= snd e)%Z) (entries ix)
+    | Err c => c = Malformed \/ c = tail_err
+    end.
+Proof. exact objstm_index_total_lemma. Qed.
+Print Assumptions objstm_index_total.
+
+(* the member lookup of getFromObjStm: idx[m] is always in range (no Panic),
+   the `delta < 0` branch cannot be taken, a miss is Malformed *)
+Theorem objstm_lookup_total :
+  forall (n_o first_o : dval) (ints : list (Z * Z)) (tail_err : cls) (number : Z),
+    nonneg_pos ints -> int64_first first_o ->
+    match objstm_find n_o first_o ints tail_err number with
+    | Ok (FReadAt off) =>
+      exists ix, get_objstm n_o first_o ints tail_err = Ok ix /\ (ipos ix <= off)%Z
+    | Ok FNull => False
+    | Err c => c = Malformed \/ c = tail_err
+    end.
+Proof. exact objstm_lookup_total_lemma. Qed.
+Print Assumptions objstm_lookup_total.
+
+Example objstm_index_ok :
+  objstm_find (DInt 2) (DInt 10) [(10, 2); (0, 4); (11, 7); (3, 9)]%Z Malformed 11%Z = Ok (FReadAt 13%Z).
+Proof. vm_compute. reflexivity. Qed.
+
+Example objstm_index_n_lies :
+  objstm_find (DInt 3) (DInt 10) [(10, 2); (0, 4); (11, 7); (3, 9)]%Z Malformed 11%Z = Err Malformed /\
+  objstm_find (DInt 10001) (DInt 10) [] Malformed 11%Z = Err Malformed /\
+  objstm_find (DInt 1) (DInt 9223372036854775807) [(10, 2); (5, 4)]%Z Malformed 10%Z = Err Malformed.
+Proof. repeat split; vm_compute; reflexivity. Qed.
+
+(* ---- (9) typed decoding through references ----------------------------- *)
+
+(* for ANY Get function (any graph) and any cache contents: a typed decoder
+   that decodes the children of its node through nested pdf.Decode calls
+   recurses at most MaxExtractDepth + 1 calls deep - each nested call extends
+   the Cursor's path by one reference, CycleCheck.step refuses a reference
+   that is on the path and a path longer than MaxExtractDepth *)
+Theorem decode_depth_bounded :
+  forall (get : N -> dnode) (fuel : nat) (ref : N) (s : dstate),
+    decode_fuel <= fuel ->
+    dec_ref get fuel [] [] s ref <> DFuel.
+Proof. exact decode_depth_bounded_lemma. Qed.
+Print Assumptions decode_depth_bounded.
+
+(* 1 -> kids [2; 3], 2 -> alias of 3, 3 -> kids [1]: the cycle is found when 1
+   is met again on the path; nothing is cached *)
+Example decode_cycle :
+  decode_in [(1, DNode [2; 3]); (2, DRef 3); (3, DNode [1])]%N 1%N = DCycle (mkD [] 3).
+Proof. vm_compute. reflexivity. Qed.
+
+(* a diamond: 4 is decoded once, the second visit is answered by the cache *)
+Example decode_diamond :
+  decode_in [(1, DNode [2; 3]); (2, DNode [4]); (3, DNode [4]); (4, DNull)]%N 1%N
+  = DOk (mkD [1; 3; 2; 4]%N 4).
 Proof. vm_compute. reflexivity. Qed.
